@@ -133,6 +133,7 @@ pub fn run(ctx: &Ctx) -> i32 {
         check_tape(tape, &g, stats, counting, &cli_budget)
     });
     rep.add(out);
+    crate::fuzzrun::tape_campaign(ctx, &mut rep, "C10", &gates);
     rep.replay_witnesses(&ctx.findings, &|w| witness(w));
     rep.extra.insert("gates_off".into(), json!(off));
     rep.assumptions = vec!["texts the parser rejects are outside C10's domain (counted as not-accepted-by-parser)".into()];
@@ -164,4 +165,11 @@ pub fn replay(ctx: &Ctx, v: &Value) -> i32 {
             1
         }
     }
+}
+
+/// one tape through the in-process oracle (used by the coverage-guided `tapes` fuzz target)
+pub fn fuzz_one(tape: &[u8], gates: &Gates) -> Result<(), Failure> {
+    let mut s = Stats::default();
+    let zero = std::sync::atomic::AtomicI64::new(0);
+    check_tape(tape, gates, &mut s, false, &zero)
 }
